@@ -22,7 +22,7 @@ try:
         r2 = subprocess.run(['/venv/bin/python', demo], cwd=wt, env=env, capture_output=True, text=True, timeout=1800)
         res['demo_mutant_exit'] = r2.returncode
         res['demo_mutant_tail'] = (r2.stdout + r2.stderr)[-300:]
-        t = sh('/tmp/muttools/checktests.sh %s' % wt)
+        t = sh('%s/tools/checktests.sh %s' % (V, wt))
         res['tests'] = t.stdout.strip().splitlines()[0] if t.stdout.strip() else t.stderr[-200:]
     ok = res.get('demo_clean_exit') == 0 and res.get('patch_applies') and res.get('demo_mutant_exit', 0) != 0 and '86/86' in res.get('tests', '')
     res['confirmed'] = bool(ok)
